@@ -117,6 +117,18 @@ def fixed_cases():
             yield {'v': [kind, 'words of the comment', ['sub', base, 'plain', inner]], 'width': 30, 'ribbon': 30, 'indent': 4}
             yield {'v': ['list', [[kind, 'words of the comment', ['sub', base, 'plain', inner]], ['int', 0]]], 'width': 30, 'ribbon': 30, 'indent': 4}
     yield {'v': ['tuple', [['cmt', 'x', ['int', 1]]]], 'width': 79, 'ribbon': 71, 'indent': 4}          # D5
+    # call-style printers: the hugged sole list / dict / tuple argument carries the comment itself; comments only on
+    # keyword arguments of a call that would fit on one line; comments on positional and keyword arguments alike
+    small = {'list': ['list', [['int', 1], ['int', 2]]], 'dict': ['dict', [[['str', 'k'], ['int', 1]]]], 'tuple': ['tuple', [['int', 1]]]}
+    for fn in ('box', 'alt'):
+        for w in (79, 20):
+            for kind in ('cmt', 'tcmt'):
+                for arg in small.values():
+                    yield {'v': ['call', fn, [[kind, 'note on the argument', arg]], []], 'width': w, 'ribbon': w, 'indent': 4}
+                    yield {'v': ['list', [['call', fn, [[kind, 'note', arg]], []], ['int', 0]]], 'width': w, 'ribbon': w, 'indent': 4}
+                yield {'v': ['call', fn, [], [['a', [kind, 'c', ['int', 1]]]]], 'width': w, 'ribbon': w, 'indent': 4}
+                yield {'v': ['call', fn, [['int', 0]], [['a', ['int', 1]], ['b', [kind, 'c', ['int', 2]]]]], 'width': w, 'ribbon': w, 'indent': 4}
+                yield {'v': ['call', fn, [[kind, 'p', ['int', 0]]], [['a', ['cmt', 'k', small['list']]]]], 'width': w, 'ribbon': w, 'indent': 4}
     yield {'v': ['cmt', 'a\n\nb', ['int', 1]], 'width': 79, 'ribbon': 71, 'indent': 4}                  # D6
     yield {'v': ['list', [['cmt', 'a\n\nb', ['int', 1]]]], 'width': 79, 'ribbon': 71, 'indent': 4}
     yield {'v': ['dict', [[['cmt', 'key c', ['str', 'k']], ['cmt', 'val c1 c2', ['list', [['cmt', 'in', ['int', 1]]]]]]]],
